@@ -66,6 +66,12 @@ theorem inv5_close {cfg : Cfg} {s s' : State} {n : Nat} (hn : SizeCfg cfg n) (hi
   obtain ⟨hn1, hn2⟩ := hn
   unfold_step at h <;> (repeat' split at h) <;> cases h <;> close_inv
 
+theorem inv5_bgEnds {cfg : Cfg} {s s' : State} {n : Nat} (hn : SizeCfg cfg n) (hi : Inv5 n cfg s)
+    (h : step good cfg s (.bgEnds) = some s') : Inv5 n cfg s' := by
+  obtain ⟨s1, s2, s3, s4, s5⟩ := hi
+  obtain ⟨hn1, hn2⟩ := hn
+  unfold_step at h <;> (repeat' split at h) <;> cases h <;> close_inv
+
 theorem inv5_prodCancelled {cfg : Cfg} {s s' : State} {n : Nat} (hn : SizeCfg cfg n) (hi : Inv5 n cfg s)
     (h : step good cfg s (.prodCancelled) = some s') : Inv5 n cfg s' := by
   obtain ⟨s1, s2, s3, s4, s5⟩ := hi
@@ -179,6 +185,7 @@ theorem inv5_step {cfg : Cfg} {s s' : State} {l : Label} {n : Nat} (hn : SizeCfg
   | ctxExpire => exact inv5_ctxExpire hn hi h
   | tick d => exact inv5_tick d hn hi h
   | close => exact inv5_close hn hi h
+  | bgEnds => exact inv5_bgEnds hn hi h
   | prodCancelled => exact inv5_prodCancelled hn hi h
   | prodSend => exact inv5_prodSend hn hi h
   | prodSendCancel => exact inv5_prodSendCancel hn hi h
